@@ -174,3 +174,14 @@ pub fn spec(pre: &RefMmu, step: &Step, log: &[AllocEv]) -> Result<Spec, String> 
         Step::Translate { .. } | Step::Touch { .. } | Step::CleanUp | Step::CleanUpRange { .. } => Ok(base(pre, Class::Free)),
     }
 }
+
+/// translate_page without cloning the model: (class, any_err, accepted code, expected frame)
+pub fn translate_page_expect(m: &RefMmu, page: u64, size: Size) -> (Class, bool, Code, Option<u64>) {
+    let class = m.class(page, size);
+    match class {
+        Class::NoPath(_) | Class::Free => (class, false, Code::NotMapped, None),
+        Class::InsideHuge(_) => (class, false, Code::ParentHuge, None),
+        Class::HoldsTable => (class, true, Code::NotMapped, None),
+        Class::MappedExact => (class, false, Code::Ok, Some(m.leaves[&Path::of(page, size.path_len())].frame)),
+    }
+}
